@@ -11,11 +11,11 @@
 package tagged
 
 import (
-	"reflect"
 	"bytes"
 	"encoding/json"
 	"fmt"
 	"math"
+	"reflect"
 	"sort"
 	"strconv"
 	"strings"
